@@ -5,6 +5,20 @@ COMMON_NOTE = ("Trusted base: Lean 4.33 kernel; axioms ⊆ {propext, Classical.c
                "generated tables (harness/gen_tables.py). ")
 
 CLAIMED = {
+    "C14": {
+        "text": "Theorems (Lean; the quantifier file kind × damage class × touched × checksum option is finite, proved over the whole table): "
+                "damaged_touched_raises — a missing / unparseable / transiently failing manifest list, manifest or data file, or an unparseable "
+                "/ transiently failing metadata file, makes every read API that touches it raise; never_subset — no read answers with anything "
+                "but the undamaged result except in the named cases; checksum_detects — with verification on any change to a data file's bytes "
+                "raises; untouched_same; damaged_touched_raises_refuted — machine-checked witness of the known finding (current metadata file "
+                "missing → an older version is served), replayed on every read API. Tie/oracle: every file reachable from the current snapshot of "
+                "a 4-commit table × 12 damage classes + transient error × 7 read APIs/options on the real library; the damage class is judged by "
+                "an independent parse; observed outcome compared with rd.outcome.",
+        "design_ref": "§6 C14",
+        "note": "Parsers (json, fastavro, pyarrow) are classified by observation; damages that still parse with different content on metadata-plane "
+                "files (no checksum there) and unverified altered data bytes are outside the statement.",
+        "technique": "Lean 4 decision-table theorems (whole finite table) + exhaustive damage × API sweep",
+    },
     "C17": {
         "text": "Theorems (Lean, over arbitrary strings): resolve_inside — any path the resolver accepts ('..', '.', empty components, doubled "
                 "slashes, absolute-looking input) has the root as a COMPONENT-WISE prefix; resolve_clean — the accepted path is canonical, so "
